@@ -59,6 +59,16 @@ class ScriptQ:
     def put(self, m):
         self.puts.append(m)
 
+    # non-consuming views of the same script: something is queued right now iff the next scripted outcome is a message
+    def empty(self):
+        return not self.script or self.script[0] == "E"
+
+    def qsize(self):
+        k = 0
+        while k < len(self.script) and self.script[k] != "E":
+            k += 1
+        return k
+
 
 def tone(n, v=20000):
     return struct.pack("<%dh" % n, *[(v if i % 2 == 0 else -v) for i in range(n)])
@@ -269,6 +279,27 @@ def search_C13(pid, budget):
                                 got if isinstance(got, str) else [x for x in got[::20]], [x[0] for x in used], cache, pre,
                                 ["S" if x == "S" else x[0] for x in script]), cache=cache)
                         sv._exported = True
+        # 8-bit audio through the whole run loop; one block spells the stop marker's text (any bytes are legal audio)
+        sent = STOPM if isinstance(STOPM, (bytes, bytearray)) else str(STOPM).encode()
+        L8 = len(sent)
+        blocks8 = [bytes([65 + i] * L8) for i in range(3)] + [bytes(sent)] + [bytes(range(120, 120 + L8)), bytes([200, 3] * L8)[:L8]]
+        for cache in (0, 0.25, 5):
+            for npre in (len(blocks8), 4, 2):
+                n += 1
+                rd8 = AudioReader(b"".join(blocks8), block_dur=L8 / 150, sr=150, sw=1, ch=1)
+                p8 = os.path.join(tmp, "s8_%d.wav" % n)
+                sv = StreamSaverWorker(rd8, p8, cache_size_sec=cache)
+                sv._inbox = ScriptQ(blocks8[:npre] + ["E", "S"] + blocks8[npre:], STOPM)
+                try:
+                    sv.run()
+                except KeyboardInterrupt:
+                    pass
+                got, params = wav_bytes(p8)
+                sv._exported = True
+                exp8 = b"".join(blocks8)      # the shutdown drain also writes what was queued behind the stop marker
+                if got != exp8 or params != (150, 1, 1):
+                    fail(pid, "StreamSaverWorker.run", "8-bit stream, blocks %r queued (stop marker after the first %d): file holds %r with parameters %r, expected "
+                         "exactly those blocks with (150, 1, 1)" % ([bytes(b) for b in blocks8], npre, got, params), cache=cache)
         # read() forwards
         rd = AudioReader(data, block_dur=0.01, sr=1000, sw=2, ch=1)
         rd.open()
